@@ -2,7 +2,7 @@
 # tools/run_all.sh <tier> <seed> [IDs...] — run the registered checks one after another; summary in target/run_all-<tier>-<seed>.log
 T="$1"; S="$2"; shift 2
 IDS="$@"; [ -z "$IDS" ] && IDS="C01 C02 C03 C04 C05 C06 C07 C08 C09 C10 C11 C12 C13 C14 C15 C16 C17 C18 C19 C20"
-cd /verif
+cd "$(dirname "$0")/.."
 L=target/run_all-$T-$S.log; : > $L
 for id in $IDS; do
   s=$(date +%s)
